@@ -21,6 +21,12 @@ import (
 // Get, Has and RangeKeys. Validation beyond the property's quantifier, not proof.
 func (comp) Extra(prop string, tier string, seed int64, scratch string) *core.ExtraResult {
 	res := &core.ExtraResult{Counts: map[string]int{}}
+	if prop == "C08" {
+		// C08 at scale only (the concurrent / reused-buffer rounds below are about C09's clause)
+		scalePersist(res, prop, tier, scratch)
+		res.Rule = "scale rounds (monitor only): 20 000 distinct keys pending in ONE batch (MaxBatchSize 50 000) of leveldb.DB and leveldb.SerialDB; every Put is read back at once by Get and Has, and a sample again with all of them pending"
+		return res
+	}
 	rounds := 90
 	if tier == "thorough" {
 		rounds = 900
@@ -121,6 +127,7 @@ func (comp) Extra(prop string, tier string, seed int64, scratch string) *core.Ex
 		res.Counts[fmt.Sprintf("rounds_kind_%d", kind)]++
 	}
 	reusedValueBuffer(res, tier, seed, scratch)
+	scalePersist(res, prop, tier, scratch)
 	res.Rule = "validation beyond the property's (sequential) quantifier: rounds of 2-6 goroutines writing their own keys (Put/Remove) through one persister with MaxBatchSize in {1,2,3,5}, so that " +
 		"size-triggered flushes overlap; then Close, a fresh persister on the same path; Get/Has of every key and RangeKeys must give exactly the last acknowledged write of every key. " +
 		"Plus sequential rounds in which the caller builds every value in ONE buffer that it overwrites after each Put (keys staged several times per batch, no read before Close): after Close and reopen every key holds the bytes of its last acknowledged Put"
@@ -138,7 +145,6 @@ func openForExtra(kind int, path string, max int) (types.Persister, error) {
 	}
 	return sharded.NewShardedPersister(path, &creator{kind: kind - 3, delay: noTimerDelay, max: max}, sp)
 }
-
 
 // reusedValueBuffer: a caller that serialises every value into one scratch buffer. Put must have taken what it needs by the time it
 // returns (goleveldb's batch copies the value); what is durable after Close must be the bytes the buffer held DURING the acknowledged
@@ -212,4 +218,111 @@ func reusedValueBuffer(res *core.ExtraResult, tier string, seed int64, scratch s
 		_ = os.RemoveAll(dir)
 		res.Counts["reused_buffer_rounds"]++
 	}
+}
+
+// scalePersist: populations beyond the powers of two at which caches and iterators are typically bounded (4096, 16384).
+// (a) C08 at scale: many distinct keys pending in one batch; every Put is read back at once (Get and Has), and all of them again at
+// the end, before any flush. (b) C09 at scale: thousands of flushed keys, some of which extend others; RangeKeys visits every key
+// exactly once with its value, on the open persister and after Close / reopen.
+func scalePersist(res *core.ExtraResult, prop string, tier string, scratch string) {
+	for _, kind := range []int{0, 1} {
+		name := []string{"leveldb.DB", "leveldb.SerialDB"}[kind]
+		val := func(i int) []byte { return []byte(fmt.Sprintf("value-%d", i)) }
+		if prop == "C08" {
+			scalePending(res, kind, name, scratch, val)
+			continue
+		}
+		// (b)
+		dir := filepath.Join(scratch, fmt.Sprintf("scale-b-%d", kind))
+		_ = os.RemoveAll(dir)
+		p, err := openForExtra(kind, dir, 500)
+		if err != nil {
+			return
+		}
+		want := map[string][]byte{}
+		put := func(k string, i int) {
+			if p.Put([]byte(k), val(i)) == nil {
+				want[k] = val(i)
+			}
+		}
+		for i := 0; i < 6000; i++ {
+			k := fmt.Sprintf("k%06d", i)
+			put(k, i)
+			if i%512 == 511 || i == 4095 || i == 4096 {
+				put(k+"\x00", i+1)
+				put(k+"7", i+2)
+				put(k+"/child", i+3)
+				put(k+"\xff", i+4)
+			}
+		}
+		walk := func(q interface {
+			RangeKeys(func(key []byte, val []byte) bool)
+		}, when string) {
+			seen := map[string]int{}
+			bad := ""
+			q.RangeKeys(func(k, v []byte) bool {
+				seen[string(k)]++
+				if wv, ok := want[string(k)]; (!ok || !bytes.Equal(wv, v)) && bad == "" {
+					bad = fmt.Sprintf("visits (%q, %q), the acknowledged map has (%q, %v)", k, v, wv, ok)
+				}
+				return true
+			})
+			res.Evaluations++
+			for k := range want {
+				if seen[k] != 1 && bad == "" {
+					bad = fmt.Sprintf("visits key %q %d times (of %d flushed keys, %d visited)", k, seen[k], len(want), len(seen))
+				}
+			}
+			if bad != "" {
+				res.Fails = append(res.Fails, core.Fail{Property: "C09", Step: -1, Msg: fmt.Sprintf("scale (%s, %d keys, some extending others): RangeKeys %s %s", name, len(want), when, bad)})
+			}
+		}
+		if p.Close() == nil {
+			if q, err := openForExtra(kind, dir, 500); err == nil {
+				walk(q, "after Close and reopen")
+				_ = q.Close()
+			}
+		}
+		_ = os.RemoveAll(dir)
+		res.Counts["scale_rounds"]++
+	}
+	for range res.Fails {
+		if len(res.Replays) < len(res.Fails) {
+			res.Replays = append(res.Replays, "harness extra -component persist -prop C09 -tier "+tier+"   # scale rounds")
+		}
+	}
+}
+
+// scalePending: C08 with many distinct keys pending in one batch (see scalePersist)
+func scalePending(res *core.ExtraResult, kind int, name string, scratch string, val func(int) []byte) {
+	dir := filepath.Join(scratch, fmt.Sprintf("scale-a-%d", kind))
+	_ = os.RemoveAll(dir)
+	p, err := openForExtra(kind, dir, 50000)
+	if err != nil {
+		res.Fails = append(res.Fails, core.Fail{Property: "C08", Step: -1, Msg: "scale: open: " + err.Error()})
+		return
+	}
+	const nPending = 20000
+	for i := 0; i < nPending && len(res.Fails) == 0; i++ {
+		k := []byte(fmt.Sprintf("pending-%06d", i))
+		if p.Put(k, val(i)) != nil {
+			continue
+		}
+		res.Evaluations++
+		if v, gerr := p.Get(k); gerr != nil || !bytes.Equal(v, val(i)) {
+			res.Fails = append(res.Fails, core.Fail{Property: "C08", Step: -1, Msg: fmt.Sprintf("scale (%s, MaxBatchSize 50000): Get right after Put #%d (%d keys pending in the batch) returns (%q, %v)", name, i, i+1, v, gerr)})
+		}
+		if herr := p.Has(k); herr != nil {
+			res.Fails = append(res.Fails, core.Fail{Property: "C08", Step: -1, Msg: fmt.Sprintf("scale (%s): Has right after Put #%d (%d keys pending) = %v", name, i, i+1, herr)})
+		}
+	}
+	for i := 0; i < nPending && len(res.Fails) == 0; i += 97 {
+		k := []byte(fmt.Sprintf("pending-%06d", i))
+		if v, gerr := p.Get(k); gerr != nil || !bytes.Equal(v, val(i)) {
+			res.Fails = append(res.Fails, core.Fail{Property: "C08", Step: -1, Msg: fmt.Sprintf("scale (%s): with %d keys pending, Get of pending key #%d returns (%q, %v)", name, nPending, i, v, gerr)})
+		}
+	}
+	_ = p.Close()
+	_ = os.RemoveAll(dir)
+	res.Counts["scale_pending_rounds"]++
 }
